@@ -4,7 +4,7 @@
   lock word becomes null; (2) the group has a linked successor: the successor's node word loses the last
   flag of the group.
 -/
-import CppUtil.Proofs.McsHardL
+import CppUtil.Proofs.McsLiveBase
 
 namespace CppUtil.Mcs
 open CppUtil
@@ -186,6 +186,28 @@ theorem inv_remove (hI : Inv W P pb cb s Q) {G : Grp} (hL1 : LastOut s Q i a G) 
       constructor
       · intro h; rw [hsame (by rcases h with h | h <;> simp [h, Loc.priv])]; exact hold.1 h
       · intro m h; rw [hsame (by simp [h, Loc.priv])]; exact hold.2 m h
+
+/-- nothing is lost when the first group is removed: its node goes to the cache -/
+theorem lo_remove (hI : Inv W P pb cb s Q) {G : Grp} (hL1 : LastOut s Q i a G) (r : Ref) (v : Word)
+    (hlo : LiveOwned s Q) :
+    LiveOwned (setAgent (cacheNode (wr s r v) a.tid a.qnode).1 i { a with loc := .done })
+      (setQ Q a.lk (Q a.lk).tail) := by
+  have hwf := hI.wf a (List.mem_of_getElem? hL1.hi)
+  apply lo_to_cache hI.own hlo hL1.hi (wr_agents s r v) (wr_tls s r v) (nodeLive_wr s r v) hwf.1 rfl
+  · intro h; rw [hL1.notPriv] at h
+  · intro ℓ G' hG'
+    by_cases hl : ℓ = a.lk
+    · subst hl
+      rw [setQ_same]
+      obtain ⟨j, hj⟩ := List.mem_iff_getElem?.mp hG'
+      rcases Nat.eq_zero_or_pos j with h0 | hpos
+      · subst h0
+        rw [hL1.first] at hj; cases hj
+        exact Or.inr hL1.node
+      · left
+        apply List.mem_iff_getElem?.mpr
+        exact ⟨j - 1, by rw [tail_getElem?, show j - 1 + 1 = j by omega]; exact hj⟩
+    · left; rw [setQ_other _ _ _ _ hl]; exact hG'
 
 /-! ### assertions of the other agents when the first group disappears (indices shift by one) -/
 
